@@ -194,7 +194,8 @@ async fn apply_version(
             }
         }
         if let Some(o) = svr_op {
-            if let Err(e) = apply::apply_op(txn, &o).await {
+            // an operation that does not make sense here is ignored; a storage failure is not
+            if let Some(e) = apply::try_apply_op(txn, &o).await? {
                 warn!("Invalid operation when syncing: {e} (ignored)");
             }
             transformed_server_ops.push(o);
